@@ -149,10 +149,12 @@ func runC16(e *Engine, r *Report) {
 			}
 			return false
 		}
+		// a helper that on every normal return has synced a directory counts as the sync
+		syncThrough := e.throughHelpers(func(c ssa.CallInstruction) bool { return e.CallsTo(c, syncDir) })
 		isSync := func(in ssa.Instruction) bool {
 			switch c := in.(type) {
 			case *ssa.Call:
-				return e.CallsTo(c, syncDir)
+				return e.CallsTo(c, syncDir) || syncThrough(c)
 			case *ssa.Defer:
 				for _, g := range e.Callees(c) {
 					if len(e.SitesIn(g, syncDir)) > 0 {
